@@ -17,9 +17,10 @@ RULE = ("(a) Enumerated exhaustively: every object file of the library built as 
         "32-bit words} x {-O0, -Os, -Ofast} plus a thumbv6m cross build with the Makefile's embedded flags; undefined symbols must be "
         "C memory primitives, compiler arithmetic helpers or the library's own symbols (no allocation, stdio, locking, thread-safe-static "
         "guards, TLS, unwinder); writable (data/bss) symbols must be the known dispatch pointers / load-time constants. (b) Generated: "
-        "workloads of 2-8 threads x 3-12 operations drawn from 14 API operations (scalar multiplication in G1/G2/GT, pairing, "
+        "workloads of 2-8 threads x 3-12 operations drawn from 16 API operations (in-place multiplication chains, scalar multiplication in G1/G2/GT, pairing, "
         "hash-to-curve, checked compressed round trips, sampling, WKD-IBE keygen/encrypt/decrypt/sign/verify on shared parameters, LQ-IBE) "
-        "with drawn operand seeds; the driver computes every result sequentially, then runs the threads concurrently from a barrier for "
+        "with drawn operand seeds; the driver computes every result sequentially, again sequentially in the opposite order (results must not "
+        "depend on what was called before), then runs the threads concurrently from a barrier for "
         "several rounds on distinct output objects under ThreadSanitizer (portable build fully instrumented, assembly build for the "
         "dispatch table): every concurrent result must equal the sequential one and TSan must report nothing. Non-trivial = a workload in "
         "which at least two threads execute the same operation kind concurrently.")
@@ -159,7 +160,7 @@ def build_driver(kind):
     return exe
 
 
-NUM_OPS = 14
+NUM_OPS = 16
 
 
 @st.composite
@@ -196,7 +197,7 @@ def check_workload(ctx, env, c):
         m = re.search(r"WARNING: ThreadSanitizer: ([^\n]*)\n(?:.*\n){0,12}?\s+#0 (\S+)", out)
         where = m.group(2) if m else "?"
         raise Violation("concurrency/tsan-report", "ThreadSanitizer: %s at %s\n%s" % (m.group(1) if m else "report", where, out[:1500]))
-    expect("mismatches=0" in out and p.returncode == 0, "concurrency/result-differs-from-sequential", lambda: "driver exit %d: %s" % (p.returncode, out[-800:]))
+    expect("mismatches=0" in out and p.returncode == 0, ("concurrency/result-depends-on-call-order" if "ORDER-MISMATCH" in out else "concurrency/result-differs-from-sequential"), lambda: "driver exit %d: %s" % (p.returncode, out[-800:]))
 
 
 def setup_env(cfg):
